@@ -110,7 +110,8 @@ Definition in_extent (a : arr) (c : list Z) : bool :=
 Definition s_write (a : arr) (start stride count vals : list Z) : res * arr :=
   if negb (well_formed stride count) then
     (* empty / ill-formed request: no existing cell changes; the extent may have grown up to start+1 *)
-    let hi := if a_unlim a && (0 <=? hd 0 start) then Z.max (a_hi a) (hd 0 start + 1) else a_hi a in
+    let hi := if a_unlim a && (0 <=? hd 0 start)
+              then Z.max (Z.max (a_hi a) (hd 0 start + 1)) (reach0 start stride count + 1) else a_hi a in
     (RAny, set_cells a (nofill_unwr a (a_cells a)) (a_lo a) hi)
   else if inner_in a start stride count then
     (* valid request: assignment, growing along the unlimited dimension when needed *)
@@ -169,7 +170,9 @@ Definition s_step (a : arr) (o : op) : arr * sout :=
       let fm := if m =? 0 then true else if m =? 256 then false else a_fillmode a in
       (mkArr (a_shape a) (a_unlim a) (a_lo a) (a_hi a) fm (a_userfill a) (a_dfill a) (a_touched a) (a_cells a), SNone)
   | OpFillv v =>
-      let cs := if a_touched a then map (fun x => match x with Fill => Undef | y => y end) (a_cells a) else a_cells a in
+      (* the property only speaks of a fill value set before the first write request *)
+      let cs := if a_touched a then map (fun x => match x with Fill | Unwr => Undef | y => y end) (a_cells a)
+                else a_cells a in
       (mkArr (a_shape a) (a_unlim a) (a_lo a) (a_hi a) (a_fillmode a) (Some v) (a_dfill a) (a_touched a) cs, SNone)
   | OpBlock _ => (a, SNone)
   | OpWrite us start stride count vals =>
